@@ -2,6 +2,7 @@ package main
 
 import (
 	"fmt"
+	"go/constant"
 	"go/types"
 	"sort"
 	"strings"
@@ -462,3 +463,132 @@ func ruleArchiveLocationSiblings(p *Program, r *Report) {
 		r.Undecided("sites", fmt.Sprintf("only %d ZipCreate sites found in package syntax", n), 0)
 	}
 }
+
+// R15d: the bundle configuration's module root is the directory the main module was written under.  The function
+// that defines the configuration (stores bundleConfig.mainRoot) also writes the main script and the module sentinel
+// under path.Join(ModuleDir, <module>, …); every later recorder and the runtime re-derive locations from
+// config.mainRoot.  The <module> component of each such entry and the value stored in mainRoot must be the same
+// value (same SSA value, or loads of the same element of an unmodified slice) — a normalised copy (trimmed, cleaned,
+// lower-cased) agrees on ordinary inputs and diverges on the rest.
+func ruleConfigRootAgreesWithLayout(p *Program, r *Report) {
+	r.Begin("R15d", "config root = layout root: in the function that defines the bundle configuration, the module component of every archive entry written under ModuleDir is the same value as the one stored in bundleConfig.mainRoot (which every later recorder and the runtime use to re-derive locations)", 2)
+	defer r.End()
+	zc := p.Func("pkg/ctxfs", "ZipCreate")
+	if zc == nil {
+		r.Undecided("anchor", "ctxfs.ZipCreate not found", 0)
+		return
+	}
+	sameElem := func(fn *ssa.Function, a, b ssa.Value) bool {
+		if a == b || sameValue(a, b, 0) {
+			return true
+		}
+		la, ok1 := a.(*ssa.UnOp)
+		lb, ok2 := b.(*ssa.UnOp)
+		if !ok1 || !ok2 {
+			return false
+		}
+		ia, ok1 := la.X.(*ssa.IndexAddr)
+		ib, ok2 := lb.X.(*ssa.IndexAddr)
+		if !ok1 || !ok2 || ia.X != ib.X || !sameValue(ia.Index, ib.Index, 0) {
+			return false
+		}
+		// no store through any element address of that slice in the function
+		clean := true
+		ForEachInstr(fn, func(ins ssa.Instruction) {
+			if st, ok := ins.(*ssa.Store); ok {
+				if x, ok := st.Addr.(*ssa.IndexAddr); ok && x.X == ia.X {
+					clean = false
+				}
+			}
+		})
+		return clean
+	}
+	moduleDir := "/module"
+	if pk := p.PkgSyntax("syntax"); pk != nil {
+		if c, ok := pk.Types.Scope().Lookup("ModuleDir").(*types.Const); ok && c.Val().Kind() == constant.String {
+			moduleDir = constant.StringVal(c.Val())
+		}
+	}
+	found := 0
+	for _, fn := range p.RepoFns {
+		if PkgPathOf(fn) != Mod+"/syntax" {
+			continue
+		}
+		// values stored into bundleConfig.mainRoot in this function
+		var roots []ssa.Value
+		ForEachInstr(fn, func(ins ssa.Instruction) {
+			st, ok := ins.(*ssa.Store)
+			if !ok {
+				return
+			}
+			fa, ok := st.Addr.(*ssa.FieldAddr)
+			if !ok {
+				return
+			}
+			if sto := structOf(fa.X.Type()); sto != nil && strings.HasSuffix(TypeName(Deref(fa.X.Type())), "bundleConfig") && sto.Field(fa.Field).Name() == "mainRoot" {
+				roots = append(roots, st.Val)
+			}
+		})
+		if len(roots) == 0 {
+			continue
+		}
+		for _, c := range callsTo(fn, zc) {
+			if len(c.Call.Args) < 4 {
+				continue
+			}
+			jc, ok := c.Call.Args[2].(*ssa.Call)
+			if !ok || !isPathJoin(jc) {
+				continue
+			}
+			// components of the join
+			var comps []ssa.Value
+			for _, a := range jc.Call.Args {
+				if sl, ok := a.(*ssa.Slice); ok {
+					if al, ok := sl.X.(*ssa.Alloc); ok {
+						type ent struct {
+							i int64
+							v ssa.Value
+						}
+						var es []ent
+						for _, ref := range *al.Referrers() {
+							if ia, ok := ref.(*ssa.IndexAddr); ok {
+								k, isK := ia.Index.(*ssa.Const)
+								for _, r2 := range *ia.Referrers() {
+									if st, ok := r2.(*ssa.Store); ok && isK {
+										es = append(es, ent{k.Int64(), st.Val})
+									}
+								}
+							}
+						}
+						sort.Slice(es, func(i, j int) bool { return es[i].i < es[j].i })
+						for _, e := range es {
+							comps = append(comps, e.v)
+						}
+					}
+				}
+			}
+			if len(comps) < 2 {
+				continue
+			}
+			k, isK := comps[0].(*ssa.Const)
+			if !isK || k.Value == nil || k.Value.Kind() != constant.String || constant.StringVal(k.Value) != moduleDir {
+				continue
+			}
+			found++
+			r.Fn(FnName(fn))
+			key := fmt.Sprintf("module-dir@%s~%d", FnName(fn), found)
+			okAll := false
+			for _, rt := range roots {
+				if sameElem(fn, comps[1], rt) {
+					okAll = true
+				}
+			}
+			r.Check(okAll, key, "entry written under the module root stored in the configuration", fmt.Sprintf("%s writes an archive entry under /module/<m>/… where <m> is not the value it stores in bundleConfig.mainRoot: imports recorded later (and the runtime) look under config.mainRoot and do not find the main module's files when the two differ", FnName(fn)), c.Pos())
+		}
+	}
+	if found < 2 {
+		r.Undecided("sites", fmt.Sprintf("only %d module-directory entries found in the function defining the configuration (2 confirmed: sentinel and main script)", found), 0)
+	}
+}
+
+func init() { register("C15", Rule{"R15d", ruleConfigRootAgreesWithLayout}) }
